@@ -230,6 +230,7 @@ PROPERTIES = {
         assumptions=['StatusCode::is_success() is true exactly for Success (kani_wire::status_closed_set: only 200 lies in 200..=299)'],
     ),
     'C18': dict(
+        category='model_checking',   # the deciding part is the bounded enumeration of schedules over the real async block
         units=['limits', 'enum_limits'],
         canaries=['limits'],
         scope='THE LIMITER\'S OWN CODE UNDER EVERY SCHEDULE OF A BOUNDED SIZE; tokio\'s semaphore is a model. Proved (Verus, unit limits): every service built by one InflightLimitLayer shares the layer\'s one per-peer table, '
@@ -245,6 +246,7 @@ PROPERTIES = {
         assumptions=['the executable models of tokio::sync::Semaphore and DashMap in unit enum_limits (stated in its docstring)'],
     ),
     'C12': dict(
+        category='other',      # two structural obligations; the behaviour across the connection is only executed
         units=['wire', 'crypto'],
         canaries=['streams'],
         extra=[validate.abandoned_rpcs],
@@ -258,6 +260,7 @@ PROPERTIES = {
         assumptions=['quinn: dropping a RecvStream sends STOP_SENDING and the peer\'s SendStream::stopped() then resolves'],
     ),
     'C19': dict(
+        category='model_checking',   # the deciding part is the bounded enumeration of histories over the real async block
         units=['limits', 'enum_limits'],
         canaries=['limits'],
         scope='THE GLUE AROUND governor, WHICH IS A MODEL. Proved (Verus, unit limits): every service built by one RateLimitLayer shares the layer\'s one keyed limiter and wait mode. BOUNDED (unit enum_limits): the real '
@@ -269,6 +272,22 @@ PROPERTIES = {
                     'that the wait-nanos hint is ACCURATE (only: present, an integer, positive)',
                     'more than 4 requests, 2 peers, other quotas'],
         assumptions=['the executable model of governor in unit enum_limits (stated in its docstring)'],
+    ),
+    'C08': dict(
+        category='other',      # three obligations about calls on a network that is gone; the property as a whole is only executed
+        units=['active_peers'],
+        canaries=['active_peers'],
+        extra=[validate.shutdown_scenarios, validate.panicking_handler],
+        scope='ONE SENTENCE PROVED, THE REST ONLY EXECUTED. Proved (Verus, unit active_peers): once the network is gone (its active-peer set can no longer be reached) disconnect() fails and changes nothing, peer() '
+              'hands out no handle and rpc() fails instead of being sent. Executed on real networks (shutdown_scenarios): a node with a slow inbound request being served, a slow outbound RPC, a dial hanging on a '
+              'silent socket, a background dial to a dead High-affinity peer, a subscriber, a weak reference and two connected peers is shut down explicitly and by dropping its last handle; everything the statement '
+              'lists is observed (bound 1 s, address re-bound at once, service clones dropped, LostPeer for every peer then end-of-stream, weak reference dead, remotes notice, pending and later calls fail); the runtime is '
+              'torn down at 4 moments with handles alive and used afterwards.',
+        unverified=['everything about WHEN and IN WHAT ORDER tasks end, channels close and values are dropped (ConnectionManager::start / shutdown, tokio, quinn): only executed, on one scenario per variant',
+                    'ConnectionManager::shutdown asserts that no peer is left once every connection handler has ended: that this cannot fail follows from "every listed connection has a handler whose exit removes it" '
+                    '(C04 / C09 obligations and enum_cm::closed_connection_bookkeeping), not from a proof of shutdown itself',
+                    'runtime teardown at moments other than the four exercised'],
+        assumptions=[CONC],
     ),
     'C02': dict(
         units=['wire', 'kani_wire', 'crypto', 'timeout'],
@@ -290,5 +309,4 @@ NOTES = ('Every check re-extracts the functions it depends on from /repo\'s work
          'exit 0 held, exit 1 VIOLATION, exit 2 undecided (lost anchor / construct the verifier rejects / timeout) - never an alarm.')
 PENDING = 'within reach of the technique (DESIGN.md section 5) but its unit is not built yet; not claimed until it runs green with guards'
 NOT_APPLICABLE = {
-     'C08': 'shutdown: task joins, channel closure, socket release and runtime teardown at every point in time; no function-level contract expresses it and neither verifier models tokio tasks or Drop ordering (DESIGN.md section 6)',
 }
